@@ -2,7 +2,8 @@ CFG = {
     "prop_v": "theories/Properties/C12.v",
     "cmd": "c10",
     "batches": lambda tier, seed: [("exhaustive", "-mode c12-exhaustive -tier %s" % tier),
-                                   ("random", "-mode c12-random -tier %s" % tier)],
+                                   ("random", "-mode c12-random -tier %s" % tier),
+                                   ("deep", "-mode c12-deep -tier %s" % tier)],
     "signatures": {},
     "rule": "exhaustive: every grammar over <=2 terminals and <=2 non-terminals with <=3 productions x every token string up to length 4..7; "
             "random: LL(1)-biased and other random grammars (nullable non-terminals, unreachable/unproductive ones) x all token strings up to length 3..7 "
@@ -10,7 +11,7 @@ CFG = {
             "Parse verdict, production callback sequence, ParseAndBuildAST tree and yield are compared with the proved model, the verdict also with an "
             "independent span-table recogniser and the production sequence with an independent leftmost-derivation replay.  Grammars with a table conflict get "
             "three inputs (Parse must return the table error).  A case is non-trivial when the table is conflict-free and at least one input is accepted and one rejected; "
-            "distinct = distinct grammars. Half of the grammars give terminal i and non-terminal i the same NAME; every case ends with rounds on its ONE grammar object: parse with new parser objects (MP/MA), with one parser object re-used for all inputs (RP), edit the grammar in place through its public API (Productions.Add/Remove, Terminals.Add), rebuild the table and parse again, compared with the model of the edited grammar.",
+            "distinct = distinct grammars.  A third of the grammars use non-terminal NAMES whose concatenations are ambiguous (names=concat: A, AA, AAA ...).  Wide grammars: one non-terminal with 20-40 alternatives starting with distinct terminals plus a nullable continuation over 20-70 terminals (table rows with many entries; a spinning lookup is cut by the watchdog and reported as HANG).  Deep batch: nesting depths 100/400/1000/3000 for E -> ( E ) | id and for the full expression grammar, right-recursive lists of 1000/5000 items, production bodies of 1100 symbols - Parse verdict, production sequence, ParseAndBuildAST tree and yield against the model (inputs over 300 tokens: the model runs without lexemes and tree shapes are compared with lexemes stripped; the yield-equals-input check on the Go tree stays exact). Half of the grammars give terminal i and non-terminal i the same NAME; every case ends with rounds on its ONE grammar object: parse with new parser objects (MP/MA), with one parser object re-used for all inputs (RP), edit the grammar in place through its public API (Productions.Add/Remove, Terminals.Add), rebuild the table and parse again, compared with the model of the edited grammar.",
     "assumptions": ["the lexer is modelled as the token list followed by io.EOF forever; callbacks never fail",
                     "the parser loop runs on fuel in the model (20000 steps in the driver); C12_terminates proves that a long enough run always finishes and C12_fuel_monotone that its result no longer changes; exhaustion in the driver would be reported as HANG"],
 }
